@@ -10,5 +10,5 @@ ASSUME = ["E3 tables: run-time contract on build_optimized_tables (offsets, perm
 
 def run(tier, seed):
     return run_components("C10", tier, seed,
-                          ["e1", finite.c10_sumfact_scope, finite.c10_clamp, lambda rep, t, s: run_e3ir(rep, "C10", t, only=("tensor", "wf_blockmap")), "e2", run_e3meta, lambda rep, t, sd: run_e3tables(rep, t, sd, ("T-FACTORS",))],
+                          ["e1", finite.c10_sumfact_scope, finite.c10_inapplicable_options, finite.c10_clamp, lambda rep, t, s: run_e3ir(rep, "C10", t, only=("tensor", "wf_blockmap")), "e2", run_e3meta, lambda rep, t, sd: run_e3tables(rep, t, sd, ("T-FACTORS",))],
                           ASSUME, ["kernelvc (E2)"])
